@@ -423,6 +423,10 @@ pub fn run(prop: &str, tier: &str, extra: &[String]) -> i32 {
         eprintln!("simplc: harness error: {e}");
         return 2;
     }
+    if let Err(e) = seam::check_privilege_seam(Path::new("/dev/shm")) {
+        eprintln!("simplc: harness error: {e}");
+        return 2;
+    }
     let seed = verif_seed();
     println!("simplc: property={prop} tier={tier} VERIF_SEED={seed}");
     let mut nruns = if tier == "quick" { plan.quick_runs } else { plan.thorough_runs };
@@ -741,6 +745,10 @@ pub fn selftest_determinism(prop: &str, extra: &[String]) -> i32 {
         eprintln!("simplc: harness error: {e}");
         return 2;
     }
+    if let Err(e) = seam::check_privilege_seam(Path::new("/dev/shm")) {
+        eprintln!("simplc: harness error: {e}");
+        return 2;
+    }
     let nruns: u64 = extra.first().and_then(|s| s.parse().ok()).unwrap_or(2000);
     let seed = verif_seed();
     let mut all: Vec<BTreeMap<u64, u64>> = vec![];
@@ -786,6 +794,50 @@ pub fn selftest_determinism(prop: &str, extra: &[String]) -> i32 {
     } else {
         0
     }
+}
+
+/// Debugging aid: executes run `r` of the quick campaign in a sandbox and prints, per variant, the
+/// role, the arguments and the complete observation (world campaigns), or the recorded history.
+pub fn observe(prop: &str, r: u64) -> i32 {
+    let dir = PathBuf::from(format!("/dev/shm/simplc-{}-observe", std::process::id()));
+    let _ = std::fs::remove_dir_all(&dir);
+    if std::fs::create_dir_all(&dir).is_err() {
+        return 2;
+    }
+    let exe = std::env::current_exe().unwrap();
+    let st = Command::new(exe).arg("observe-worker").arg(&dir).arg(prop).arg(r.to_string()).arg(verif_seed().to_string()).status();
+    if let Ok(b) = std::fs::read(dir.join("obs.json")) {
+        println!("{}", String::from_utf8_lossy(&b));
+    }
+    let _ = std::fs::remove_dir_all(&dir);
+    if matches!(st, Ok(s) if s.success()) { 0 } else { 2 }
+}
+
+pub fn observe_worker(dir: &str, prop: &str, r: u64, seed: u64) -> i32 {
+    let t = generate(prop, false, r, seed);
+    if enter_sandbox(dir).is_err() {
+        return 2;
+    }
+    let out = match &t {
+        Trace::World(w) => {
+            let items: Vec<serde_json::Value> = w
+                .variants
+                .iter()
+                .map(|v| {
+                    let o = crate::world::exec_variant(&w.world, v);
+                    serde_json::json!({"role": v.role, "entry": v.entry, "args": v.args, "extras": v.extras, "unprivileged": v.unprivileged, "faults": v.faults, "obs": o})
+                })
+                .collect();
+            serde_json::json!({"mode": w.mode, "variants": items})
+        }
+        Trace::Lsp(l) => {
+            let h = crate::lsp_oracles::run_history(l);
+            serde_json::json!({"incarnations": h.incarnations})
+        }
+    };
+    let _ = std::fs::remove_dir_all("/r");
+    std::fs::write("/obs.json", serde_json::to_vec_pretty(&out).unwrap()).unwrap();
+    0
 }
 
 pub fn dump(prop: &str, r: u64) -> i32 {
